@@ -5,6 +5,7 @@ import (
 	"fmt"
 	"testing"
 
+	"golang.org/x/crypto/blake2b"
 	"pgregory.net/rapid"
 
 	"github.com/bronlabs/bron-crypto/pkg/commitments"
@@ -142,6 +143,20 @@ func TestHashcomOpen(t *testing.T) {
 		}
 		if !bytes.Equal(msg, msgCopy) {
 			t.Fatalf("hashcom commit/open modified the caller's message")
+		}
+		// the DOCUMENTED definition (package doc, README, CommitWithWitness comment):
+		// C = H_k(message || witness), H_k = BLAKE2b-256 in its native keyed mode. Computed here with
+		// golang.org/x/crypto/blake2b directly; binding rests on this being THE commitment - a
+		// commitment computed from anything less than the whole message opens to other messages.
+		if ref, err := blake2b.New256(key[:]); err != nil {
+			t.Fatalf("harness: blake2b.New256: %v", err)
+		} else {
+			ref.Write(msg)
+			ref.Write(w[:])
+			if want := ref.Sum(nil); !bytes.Equal(want, c[:]) {
+				t.Fatalf("hashcom commitment to a %d-byte message is not the documented H_k(message || witness): key=%x msg=%s w=%x got %x want %x",
+					len(msg), key[:], vlib.Hex(msg), w[:], c[:], want)
+			}
 		}
 
 		change := rapid.SampledFrom(hashChanges).Draw(t, "change")
